@@ -148,7 +148,7 @@ Lemma update_time_ok p ns p' :
   p_now p' = p_now p + ns /\ p_out p' = p_out p /\ p_warnings p' = p_warnings p /\ same_but_clock_out p p'
   /\ p_now p + ns < two64.
 Proof.
-  unfold update_time, cadd. destruct (p_now p + ns <? two64) eqn:E; [|discriminate].
+  unfold update_time. destruct (p_now p + ns <? two64) eqn:E; [|discriminate].
   intros H; inversion H; subst; clear H. cbn. unfold same_but_clock_out. cbn. repeat split; lia.
 Qed.
 
